@@ -27,8 +27,10 @@ def pool_value(rng):
     return rng.random()
 
 
-WORDS = {1: ["a", "i", "x", "é"], 2: ["ab", "we", "да", "ok"], 3: ["cat", "dog", "abc", "ñu "],
-         4: ["pass", "love", "word", "тест"], 5: ["hello", "admin", "qwert"]}
+# incl. letters WITHOUT case (Hebrew, CJK: every mask gives the same string - still one guess per derivation), a word that is
+# only partly cased, and U+0130 (the one capital the trainer keeps in its alpha lists, lower() has two code points)
+WORDS = {1: ["a", "i", "x", "é", "日"], 2: ["ab", "we", "да", "ok", "אב", "İz"], 3: ["cat", "dog", "abc", "ñu ", "日本語", "aבג", "fİl"],
+         4: ["pass", "love", "word", "тест", "שלום"], 5: ["hello", "admin", "qwert"]}
 DIGITS = {1: ["1", "2", "7", "0"], 2: ["12", "99", "07", "00"], 3: ["123", "007", "321"], 4: ["1234", "2580", "0000"]}
 OTHER = {1: ["!", "#", " ", "$", "*"], 2: ["!!", "#!", "  ", "€$"], 3: ["!@#", "..."]}
 KEYB = {4: ["1qaz", "qwer", "zaq1", "1QAZ", "!QAZ"], 5: ["1qazx", "qwert", "QWERt"]}     # walks are stored as typed, capitals included
